@@ -941,7 +941,9 @@ func (l *lexer) scanToken() int {
 	// is the last word of the value of another alias which also ends here
 	for i := len(l.aliases) - 1; i >= 0 && !blank; i-- {
 		a := l.aliases[i]
-		if a.value.Len() != 0 {
+		if a.value.Len() > 1 {
+			// (after an operator the blank which ends the value may
+			// still be unread)
 			break
 		}
 		blank = a.blank
